@@ -1503,6 +1503,35 @@ def m_option_unwrap_or_else(ex, st, call, args):
     return gen()
 
 
+def m_option_map_or(ex, st, call, args):
+    try:
+        f = args[2]
+        fv = ex.load(st, f[1]) if f[0] == "ref" else (f[1] if f[0] == "&" else f)
+        if fv[0] != "closure":
+            return NotImplemented
+    except Exception:
+        return NotImplemented
+
+    def gen():
+        for s, is_some, payload in _opt_cases(ex, st, args[0]):
+            if not is_some:
+                yield s, "ret", args[1]
+            else:
+                for s2, v in _call_closure_paths(ex, s, args[2], [payload]):
+                    yield s2, "ret", v
+    return gen()
+
+
+def m_option_or(ex, st, call, args):
+    def gen():
+        for s, is_some, payload in _opt_cases(ex, st, args[0]):
+            if is_some:
+                yield s, "ret", ("adt", "core::option::Option", "Some", (payload,))
+            else:
+                yield s, "ret", args[1]
+    return gen()
+
+
 def m_option_is(some):
     def model(ex, st, call, args):
         def gen():
@@ -1646,6 +1675,8 @@ DEFAULT_MODELS = {
     "core::option::Option::<T>::unwrap": m_option_unwrap,
     "core::option::Option::<T>::expect": m_option_unwrap,
     "core::option::Option::<T>::unwrap_or": m_option_unwrap_or,
+    "core::option::Option::<T>::or": m_option_or,
+    "core::option::Option::<T>::map_or": m_option_map_or,
     "core::option::Option::<T>::unwrap_or_else": m_option_unwrap_or_else,
     "core::array::<impl [T; N]>::map": m_array_map,
     "alloc::slice::<impl [T]>::sort": m_sort,
